@@ -351,8 +351,21 @@ func decodeStream(c *mon.Ctx, s *slib, rng *gen.Rng, pl *pools, h []item, stream
 		var dirty *ocodec.Val
 		if o.dirty {
 			sz := 2
-			if isSliceKind(k) && rng.Bool() {
-				sz = lenOf(it.v) // same length: the reuse path of the decoder
+			if isSliceKind(k) {
+				// stale destinations of every relative length: the same (reuse path of the decoder), longer
+				// (a decoder that only grows its destination keeps stale entries and reads too much), shorter
+				switch n := lenOf(it.v); rng.Intn(5) {
+				case 0:
+					sz = n
+				case 1:
+					sz = n + 1
+				case 2:
+					sz = n + 1 + rng.Intn(4)
+				case 3:
+					if n > 0 {
+						sz = n - 1
+					}
+				}
 			}
 			d := s.genVal(k, rng, pl, sz)
 			dirty = &d
